@@ -108,7 +108,9 @@ p["units"] += [
     K("h_mem::mem_cuckoo_alloc", "quick", "cuckoo table: blocks*64 in [slots*l, slots*l+64)"),
     K("h_mem::mem_qf_alloc", "quick", "QF remainder table: blocks*64 in [slots*r, slots*r+64)"),
     K("h_mem::mem_other_sizes", "quick", "Bloom words, CMS counters, HLL registers match the configuration"),
-    K("h_cuckoo::ck_clear_clone", "quick", "cuckoo: clear() / clone keep the block count of a fresh table (no growth on the clear path)", features=["kicks2"], mem_class_gb=10, timeout_s=2400),
+    K("h_mem::mem_cuckoo_clear", "quick", "cuckoo: clear() (also twice) keeps the block count and table length of a fresh table, widths 2,3,16,31,33,64", mem_class_gb=6, timeout_s=2400),
+    K("h_mem::mem_qf_clear", "quick", "QF: clear() keeps the block count and table length, remainder widths 2,3,16,33,62", mem_class_gb=6, timeout_s=2400),
+    K("h_cuckoo::ck_clear_clone", "quick", "cuckoo: clear() / clone keep the block count of a fresh table (no growth on the clear path)", features=["kicks2"], mem_class_gb=10, timeout_s=2400, mem_gb=30),
     K("h_qf::qf_clear_clone_q2r2", "quick", "QF: clear() keeps the block count of a fresh table", mem_class_gb=8, timeout_s=2400),
     K("h_cms::cms_add_w3d2_u8", "quick", "CMS: add_n keeps len and capacity"), K("h_cms::cms_merge_w3d2_u8", "quick", "CMS: merge keeps len, capacity bounded"),
     K("h_hll::hll_add_hashed_b4", "quick", "HLL: add keeps the register count"), K("h_hll::hll_merge_max_b4", "quick", "HLL: merge keeps the register count"),
@@ -485,3 +487,9 @@ PROPS["C02"]["units"].append(M("hashiter_next_64bit", "quick", "engine M on the 
                                "m <= 2^31, any k, i", model="kernel", kernel="hashiter_next", need_witness=["ret", "overflow_possible_when_m_above_2_31"]))
 PROPS["C02"]["outside"] = ["tables larger than 3x2 / 2x3 in the Kani step harnesses", "counter overflow (checked_add panics) is assumed away: N+n <= C::MAX", "more than 2^31 columns (HashIter::next can overflow u64 there — shown satisfiable by the engine-M kernel)"]
 PROPS["C01"]["units"].append(M("hashiter_next_64bit", "quick", "HashIter::next (Bloom positions) at 64 bits: position < m, exactly k positions, no overflow for m <= 2^31", "m <= 2^31", model="kernel", kernel="hashiter_next", need_witness=["ret"]))
+
+# the hasher-dependent leaves that engine M treats as contracts (fingerprint != 0 and < 2^l, bucket < n_buckets, alternate bucket an
+# involution) are decided on the compiled code for every l and n_buckets by this Kani kernel: part of every property that rests on them
+for pid_ in ("C14", "C01", "C12"):
+    PROPS[pid_]["units"].append(K("h_cuckoo::ck_fingerprint_kernel", "quick", "cuckoo fingerprint in [1, 2^l-1], buckets in range, alternate bucket is an involution (discharges the contract engine M assumes for fingerprint()/hash())",
+                                  "l in [2,64], n_buckets <= 2^20", mem_class_gb=6, timeout_s=2400))
